@@ -31,6 +31,9 @@ pub struct ChainState {
     /// the n-th `get_block` call from now fails with a transient error (0 = the next one)
     pub fail_block_in: Option<u64>,
     pub persistent: bool,
+    /// the n-th `get_block` call from now takes `stall_ms` before it answers (0 = the next one)
+    pub stall_block_in: Option<u64>,
+    pub stall_ms: u64,
     /// shared with the RPC transport: the node as a whole is unreachable
     pub link: Option<Arc<std::sync::atomic::AtomicBool>>,
     /// calls made (kind, height)
@@ -79,6 +82,24 @@ impl BlockSource for SimSource {
 
     fn get_block<'a>(&'a self, header_hash: &'a BlockHash) -> AsyncBlockSourceResult<'a, BlockData> {
         Box::pin(async move {
+            // a download that stalls (the node is slow, not gone): decided under the lock, slept without it
+            let stall = {
+                let mut st = self.0.lock().unwrap();
+                match st.stall_block_in {
+                    Some(0) => {
+                        st.stall_block_in = None;
+                        Some(st.stall_ms)
+                    }
+                    Some(n) => {
+                        st.stall_block_in = Some(n - 1);
+                        None
+                    }
+                    None => None,
+                }
+            };
+            if let Some(ms) = stall {
+                tokio::time::sleep(std::time::Duration::from_millis(ms)).await;
+            }
             let mut st = self.0.lock().unwrap();
             if st.down || st.link.as_ref().map(|l| l.load(std::sync::atomic::Ordering::SeqCst)).unwrap_or(false) {
                 return Err(BlockSourceError::transient("connection refused (simulated)"));
@@ -175,6 +196,27 @@ impl MonitorThread {
             })
             .unwrap();
         MonitorThread { tx, done: drx, handle: Some(handle), polling: false }
+    }
+
+    /// The chain monitor's own loop (`monitor_chain`, polling every `delta_sec`) until the returned trigger fires.
+    pub fn spawn_loop(source: SimSource, tip: ValidatedBlockHeader, w: &World, delta_sec: u16) -> (std::thread::JoinHandle<bool>, triggered::Trigger) {
+        let listener: Listener =
+            Arc::new((Arc::new(BlockLog), Arc::new((w.gatekeeper.clone(), Arc::new((w.watcher.clone(), w.responder.clone()))))));
+        let dbm = w.dbm.clone();
+        let reachable = w.reachable.clone();
+        let (trigger, signal) = triggered::trigger();
+        let handle = std::thread::Builder::new()
+            .name("chain-monitor-loop".into())
+            .spawn(move || {
+                let rt = tokio::runtime::Builder::new_current_thread().enable_all().build().unwrap();
+                let cache: &'static mut UnboundedCache = Box::leak(Box::new(UnboundedCache::new()));
+                let poller = ChainPoller::new(Box::new(source), Network::Regtest);
+                let spv = SpvClient::new(tip, poller, cache, listener);
+                let mut cm: Monitor = rt.block_on(ChainMonitor::new(spv, tip, dbm, delta_sec, signal, reachable));
+                std::panic::catch_unwind(std::panic::AssertUnwindSafe(|| rt.block_on(cm.monitor_chain()))).is_ok()
+            })
+            .unwrap();
+        (handle, trigger)
     }
 
     pub fn start_poll(&mut self) {
